@@ -46,7 +46,7 @@ def probe_rustc(wd, lib_rs="#![allow(unused)]\n", features=None):
     raise ToolError("cargo -v did not show the rustc invocation of the probe crate:\n" + p.stdout[-1500:])
 
 
-def replay(envs, cmd, src, out_dir, manifest_dir=None, emit="dep-info,metadata", extra=(), edition=None):
+def replay(envs, cmd, src, out_dir, manifest_dir=None, emit="dep-info,metadata", extra=(), edition=None, drop_check_cfg=False):
     """the probe's rustc command with another root source file and output directory"""
     os.makedirs(out_dir, exist_ok=True)
     res, skip = [], False
@@ -57,10 +57,16 @@ def replay(envs, cmd, src, out_dir, manifest_dir=None, emit="dep-info,metadata",
         if a == "--out-dir":
             res += ["--out-dir", out_dir]
             skip = True
+        elif a == "--check-cfg" and drop_check_cfg:
+            skip = True          # cargo's feature list for the probe crate says nothing about generated code
         elif a == "-C" and k + 1 < len(cmd) and cmd[k + 1].startswith("incremental="):
             skip = True
         elif a.startswith("--emit="):
             res.append("--emit=" + emit)
+        elif a.startswith("--error-format=") or a.startswith("--json=") or a.startswith("--diagnostic-width"):
+            continue
+        elif "link" in emit and a.endswith(".rmeta") and "=" in a:
+            res.append(a[:-6] + ".rlib")          # a binary needs the full rlibs, cargo pipelines libs on metadata
         elif a.startswith("--edition=") and edition:
             res.append("--edition=" + edition)
         elif a.endswith("src/lib.rs"):
